@@ -72,7 +72,7 @@ def run(chk):
         chk.add_tlc(r2)
     res, wd = run_driver(chk, 600 if thorough else 80)
     for v in res["violations"] or []:
-        if v["sig"] in ("request-misrouted", "request-failed-by-a-connection-fault"):
+        if v["sig"] in ("request-misrouted", "request-failed-by-a-connection-fault", "request-failed-by-a-transient-fault"):
             continue    # (C04's verdict: a request that fails because the client addressed the wrong region)
         chk.violation(v["sig"], v["desc"], dict(kind="c09", detail=v))
     if res["scenarios"]:
